@@ -442,6 +442,18 @@ func tableEff(name string, f *ssa.Function) (calleeEff, bool) {
 			rets(paths("R0"))
 		}
 	default:
+		if strings.HasPrefix(name, "(*crypto/elliptic.nistCurve[") || strings.HasPrefix(name, "(*crypto/elliptic.CurveParams).") {
+			// immutable curve objects of the standard library (see ifaceContract)
+			e.reads = paths("P0…", "P1…", "P2…", "P3…", "P4…")
+			for k := 0; k < nres; k++ {
+				if isRefType(f.Signature.Results().At(k).Type()) {
+					e.ret = append(e.ret, []Path{Path(fmt.Sprintf("R%d", k))})
+				} else {
+					e.ret = append(e.ret, nil)
+				}
+			}
+			return e, true
+		}
 		if strings.HasPrefix(name, "(*sync.") || strings.HasPrefix(name, "sync/atomic.") || strings.HasPrefix(name, "(*sync/atomic.") {
 			// synchronisation primitives: internally synchronised state, not a data race
 			for k := 0; k < nres; k++ {
@@ -476,6 +488,13 @@ func ifaceContract(c *ssa.CallCommon) (calleeEff, bool) {
 				e.ret = append(e.ret, nil)
 			}
 		}
+	}
+	if ts := types.TypeString(c.Value.Type(), nil); ts == "crypto/elliptic.Curve" {
+		// the standard curve object is immutable: Add / Double / ScalarMult / ScalarBaseMult / IsOnCurve /
+		// Params read their arguments and return fresh big.Ints (Params: the shared parameter block)
+		readAll()
+		retFresh()
+		return e, true
 	}
 	switch m {
 	// read-only methods
